@@ -54,7 +54,7 @@ Supply == Cardinality(Users) * InitBal
 \*   [tid, id, kind, from, signer, chain, nonce, to, amt, ops]
 \*   kind: transfer | stake | unstake | vote | name | deploy | call | fdcall | vault
 \*   signer: the key that signed (= from when honest); chain: "this" | "other"
-\*   ops (call): "ok" | "fail" (runtime failure after a storage write and a send) | "send" (contract sends amt to `to`)
+\*   ops (call): "ok" | "fail" (runtime failure after a storage write and a send) | "sys" (system failure of the VM after the same) | "send" (contract sends amt to `to`)
 Authorised(t) == t.signer = t.from /\ t.chain = "this"
 \* who pays the fee: the called contract for a fee-delegated call, the sender otherwise
 Payer(t) == IF t.kind = "fdcall" THEN Contract ELSE t.from
@@ -81,6 +81,7 @@ CanApply(t, fee) ==
 Classes(t, fee) ==
   IF MustReject(t) THEN {"reject"}
   ELSE {"reject"} \cup (IF ~CanApply(t, fee) THEN {}
+                        ELSE IF t.kind \in {"call", "fdcall"} /\ t.ops = "sys" THEN {}   \* the VM itself fails: dropped, no trace
                         ELSE IF t.kind \in {"call", "fdcall"} /\ t.ops = "fail" THEN {"error"} ELSE {"success"})
 
 \* effects of a successful transaction on balances (fee excluded)
